@@ -60,6 +60,7 @@ func truthImpliesPositiveOp(fn *ssa.Function, v ssa.Value, fOp *types.Var, site 
 func helperTrueImpliesPositiveOp(fn *ssa.Function, fOp *types.Var) bool {
 	cuts := newCuts()
 	saw := false
+	assumed := map[ssa.Value]bool{} // the operator is not a positive one: what each comparison with one yields
 	allInstrs(fn, func(in ssa.Instruction) {
 		b, ok := in.(*ssa.BinOp)
 		if !ok || (b.Op != token.EQL && b.Op != token.NEQ) {
@@ -81,6 +82,7 @@ func helperTrueImpliesPositiveOp(fn *ssa.Function, fOp *types.Var) bool {
 		} else {
 			cuts.addEdges(f)
 		}
+		assumed[b] = b.Op == token.NEQ
 	})
 	// the operators kept as a set: `selectingOps[f.Op]` with a package-level map literal whose true keys are all positive
 	var setLookups []ssa.Value
@@ -115,7 +117,7 @@ func helperTrueImpliesPositiveOp(fn *ssa.Function, fOp *types.Var) bool {
 		return false
 	}
 	// both positive operators must have been tested for: with only one of them cut the other still admits – that is fine
-	cuts.closeBoolPhis(fn)
+	cuts.closeBoolPhisWith(fn, assumed)
 	hit, _ := reach(entrySite(fn), func(in ssa.Instruction) bool {
 		r, ok := in.(*ssa.Return)
 		if !ok {
